@@ -5,11 +5,11 @@
 //! from an image with every symbol count.
 
 use bio_seq::error::ParseBioError;
-use bio_seq::kmer::Kmer;
 use bsv::fixture::*;
 use bsv::model::*;
 use bsv::producers::{self, Produced};
 use bsv::*;
+use bsvk::*;
 use serde::{Deserialize, Serialize};
 use serde_json::json;
 use std::borrow::ToOwned;
@@ -59,24 +59,15 @@ fn gen(t: Tier, _seed: u64, emit: &mut dyn FnMut(Case)) {
 fn run(c: &Case, out: &mut Out) {
     match c {
         Case::Readme => readme(out),
-        Case::Ints { cid, sid, k } => {
-            let mut v = IntV { out };
-            if !dispatch_k(*cid, *sid, *k, &mut v) {
-                v.out.violation("MACHINERY/k-does-not-fit", format!("{cid:?} {sid:?} K={k}"));
-            }
-        }
-        Case::RawFromKmer { cid, k } => {
-            let mut v = RawKV { out };
-            if !dispatch_k(*cid, Sid::Usize, *k, &mut v) {
-                v.out.violation("MACHINERY/k-does-not-fit", format!("{cid:?} K={k}"));
-            }
-        }
+        Case::Ints { cid, sid, k } => bsvk::dispatch_k!(*cid, ints(*sid, *k, out)),
+        Case::RawFromKmer { cid, k } => bsvk::dispatch_k!(*cid, raw_from_kmer(*k, out)),
         Case::Refuse { cid } => dispatch!(*cid, refuse(out)),
         Case::Raw { cid, n, variant } => dispatch!(*cid, raw(*n, *variant, out)),
     }
 }
 
 fn readme(out: &mut Out) {
+    use bio_seq::kmer::Kmer;
     let table = [
         "AAAAA", "CAAAA", "GAAAA", "TAAAA", "ACAAA", "CCAAA", "GCAAA", "TCAAA", "AGAAA", "CGAAA", "GGAAA", "TGAAA", "ATAAA", "CTAAA", "GTAAA", "TTAAA",
     ];
@@ -105,66 +96,33 @@ fn contents<A: Sx>(k: usize, out: &mut Out, f: &mut dyn FnMut(&[A], bool, &mut O
     }
 }
 
-struct IntV<'a> {
-    out: &'a mut Out,
-}
-
-impl KVisitor for IntV<'_> {
-    fn any<A: Sx, const K: usize, S: Store>(&mut self) {
-        let cn = A::CID.name();
-        let sn = S::SID.name();
-        let bits = A::BITS as usize;
-        let nof = noff(bits);
-        self.out.dim("k_bits", (K * bits) as i64);
-        contents::<A>(K, self.out, &mut |content, all, out| {
-            out.units += 1;
-            let want: u128 = pack_u128(&codes(content), bits);
-            // offsets: every one for the pattern family, a content-dependent one when all contents are enumerated
-            let offs: Vec<usize> = if all { vec![(want as usize).wrapping_mul(7) % nof] } else { (0..nof).collect() };
-            for s in offs {
-                let pl = place(content, s, 0);
-                out.stage = "Kmer::try_from(&slice).bs";
-                let km = out.catch(|| Kmer::<A, K, S>::try_from(pl.view()));
-                match &km {
-                    Ok(Ok(k)) => {
-                        let got = k.bs.to_u128();
-                        out.check(got == want, || {
-                            (
-                                format!("{cn}/kmer<{sn}>.bs/not-little-endian-packing"),
-                                format!("Kmer<_,{K},{sn}> of {} (slice offset {s}) has integer {got:#x}, packing gives {want:#x}", show(content)),
-                            )
-                        });
-                    }
-                    other => {
-                        out.checks += 1;
-                        out.violation(format!("{cn}/kmer<{sn}>/cannot-construct"), format!("Kmer<_,{K},{sn}>::try_from({}) = {:?}", show(content), other.as_ref().map(|r| r.as_ref().map(|k| k.to_string()))));
-                    }
-                }
-            }
-            // decoding the integer as a k-mer yields exactly those symbols
-            out.stage = "Kmer::from(int).to_string()";
-            if let Ok(Some(k)) = out.catch(|| S::kmer_from_int::<A, K>(want)) {
-                let got = out.catch(|| k.to_string());
-                out.check(got.as_deref() == Ok(show(content).as_str()), || {
-                    (
-                        format!("{cn}/kmer<{sn}>-from-int/wrong-symbols"),
-                        format!("Kmer<_,{K},{sn}>::from({want:#x}) displays {:?}, want {}", got, show(content)),
-                    )
-                });
-            }
-            out.observe(&(A::CID, K, want as u64 & 0xffff));
-        });
-    }
-
-    fn word<A: Sx, const K: usize>(&mut self) {
-        let cn = A::CID.name();
-        let bits = A::BITS as usize;
-        let nof = noff(bits);
-        contents::<A>(K, self.out, &mut |content, all, out| {
-            let want: u128 = pack_u128(&codes(content), bits);
-            let offs: Vec<usize> = if all { vec![(want as usize).wrapping_mul(5) % nof, 0] } else { (0..nof).collect() };
-            for &s in &offs {
-                let pl = place(content, s, 0);
+fn ints<A: SxK>(sid: Sid, k: usize, out: &mut Out) {
+    let Some(api) = kmer_api::<A>(sid, k) else {
+        out.violation("MACHINERY/k-does-not-fit", format!("{:?} {sid:?} K={k}", A::CID));
+        return;
+    };
+    let api = &*api;
+    let cn = A::CID.name();
+    let sn = sid.name();
+    let bits = A::BITS as usize;
+    let nof = noff(bits);
+    out.dim("k_bits", (k * bits) as i64);
+    contents::<A>(k, out, &mut |content, all, out| {
+        out.units += 1;
+        let want: u128 = pack_u128(&codes(content), bits);
+        // offsets: every one for the pattern family, a content-dependent one when all contents are enumerated
+        let offs: Vec<usize> = if all { vec![(want as usize).wrapping_mul(7) % nof, 0] } else { (0..nof).collect() };
+        for &s in &offs {
+            let pl = place(content, s, 0);
+            out.stage = "Kmer::try_from(&slice).bs";
+            let km = out.catch(|| api.try_from_slice(pl.view()));
+            out.check(matches!(&km, Ok(Ok(g)) if *g == want), || {
+                (
+                    format!("{cn}/kmer<{sn}>.bs/not-little-endian-packing"),
+                    format!("Kmer<_,{k},{sn}>::try_from({} at slice offset {s}).bs = {:x?}, packing gives {want:#x}", show(content), km),
+                )
+            });
+            if sid == Sid::Usize {
                 out.stage = "usize::try_from(&SeqSlice)";
                 let got = out.catch(|| usize::try_from(pl.view()));
                 out.check(matches!(&got, Ok(Ok(g)) if *g as u128 == want), || {
@@ -173,7 +131,7 @@ impl KVisitor for IntV<'_> {
                         format!("usize::try_from(slice {} at offset {s}) = {:?}, packing gives {want:#x}", show(content), got),
                     )
                 });
-                if K * bits <= 8 {
+                if k * bits <= 8 {
                     out.stage = "u8::from(&SeqSlice)";
                     let got = out.catch(|| u8::from(pl.view()));
                     out.check(matches!(&got, Ok(g) if *g as u128 == want), || {
@@ -192,25 +150,47 @@ impl KVisitor for IntV<'_> {
                     )
                 });
             }
+        }
+        // decoding the integer as a k-mer yields exactly those symbols
+        out.stage = "Kmer::from(int).to_string()";
+        if let Ok(Some(v)) = out.catch(|| api.from_int(want)) {
+            let got = out.catch(|| api.display(v));
+            out.check(got.as_deref() == Ok(show(content).as_str()) && v == want, || {
+                (
+                    format!("{cn}/kmer<{sn}>-from-int/wrong-symbols"),
+                    format!("Kmer<_,{k},{sn}>::from({want:#x}) displays {:?} (value {v:#x}), want {}", got, show(content)),
+                )
+            });
+        }
+        if let Ok(Some(v)) = out.catch(|| api.from_usize(want as usize)) {
+            let got = out.catch(|| api.display(v));
+            out.check(got.as_deref() == Ok(show(content).as_str()), || {
+                (
+                    format!("{cn}/kmer<{sn}>-from-usize/wrong-symbols"),
+                    format!("Kmer<_,{k},{sn}>::from({want:#x}usize) displays {:?}, want {}", got, show(content)),
+                )
+            });
+        }
+        // any k-mer value displays as its symbols (the integer itself is the k-mer)
+        out.stage = "Kmer{bs: int}.to_string()";
+        let got = out.catch(|| api.display(want));
+        out.check(got.as_deref() == Ok(show(content).as_str()), || {
+            (format!("{cn}/kmer<{sn}>-display/wrong-symbols"), format!("the Kmer<_,{k},{sn}> with integer {want:#x} displays {:?}, want {}", got, show(content)))
+        });
+        if sid == Sid::Usize {
             out.stage = "usize::from(Seq)";
             let got = out.catch(|| usize::from(build(content)));
             out.check(matches!(&got, Ok(g) if *g as u128 == want), || {
                 (format!("{cn}/usize-from-seq/not-little-endian-packing"), format!("usize::from(Seq {}) = {:?}, packing gives {want:#x}", show(content), got))
             });
             out.stage = "usize::from(&Kmer)";
-            let pl = place(content, offs[0], 1);
-            let got = out.catch(|| Kmer::<A, K>::try_from(pl.view()).map(|k| usize::from(&k)));
-            out.check(matches!(&got, Ok(Ok(g)) if *g as u128 == want), || {
+            let got = out.catch(|| api.usize_from(want));
+            out.check(matches!(&got, Ok(Some(g)) if *g as u128 == want), || {
                 (format!("{cn}/usize-from-kmer/not-little-endian-packing"), format!("usize::from(&Kmer {}) = {:?}, packing gives {want:#x}", show(content), got))
             });
-            // Kmer<_,K,u64>::from(usize) is offered as well
-            out.stage = "Kmer<u64>::from(usize)";
-            let got = out.catch(|| Kmer::<A, K, u64>::from(want as usize).to_string());
-            out.check(got.as_deref() == Ok(show(content).as_str()), || {
-                (format!("{cn}/kmer<u64>-from-usize/wrong-symbols"), format!("Kmer<_,{K},u64>::from({want:#x}usize) displays {:?}, want {}", got, show(content)))
-            });
-        });
-    }
+        }
+        out.observe(&(A::CID, k, want as u64 & 0xffff));
+    });
 }
 
 fn refuse<A: Sx>(out: &mut Out) {
@@ -372,21 +352,23 @@ fn raw<A: Sx>(n: usize, variant: u64, out: &mut Out) {
     }
 }
 
-struct RawKV<'a> {
-    out: &'a mut Out,
-}
-
-impl KVisitor for RawKV<'_> {
-    fn any<A: Sx, const K: usize, S: Store>(&mut self) {}
-    fn word<A: Sx, const K: usize>(&mut self) {
-        let m = alphabet::<A>().len();
-        let content = syms::<A>(&bg(K, m, 85, self.out.seed));
-        for s in [0usize, 1, noff(A::BITS as usize) - 1] {
-            if let Some(pr) = producers::from_kmer::<A, K>(&content, s) {
-                image_checks::<A>(&pr, self.out);
-            } else {
-                self.out.violation(format!("{}/producer/kmer-cannot-construct", A::CID.name()), format!("K={K}"));
+fn raw_from_kmer<A: SxK>(k: usize, out: &mut Out) {
+    let Some(api) = kmer_api::<A>(Sid::Usize, k) else {
+        out.violation("MACHINERY/k-does-not-fit", format!("{:?} K={k}", A::CID));
+        return;
+    };
+    let m = alphabet::<A>().len();
+    let content = syms::<A>(&bg(k, m, 85, out.seed));
+    for s in [0usize, 1, noff(A::BITS as usize) - 1] {
+        let pl = place(&content, s, 0);
+        out.stage = "Seq::from(Kmer)";
+        let r = out.catch(|| api.try_from_slice(pl.view()).ok().and_then(|v| api.into_seq(v)));
+        match r {
+            Ok(Some(seq)) => {
+                let pr = Produced { name: format!("Seq::from(Kmer<_,{k}> of slice@{s})"), seq, codes: codes(&content), symbolic: true };
+                image_checks::<A>(&pr, out);
             }
+            other => out.violation(format!("{}/producer/seq-from-kmer-fails", A::CID.name()), format!("K={k}: {:?}", other.map(|o| o.map(|s| s.to_string())))),
         }
     }
 }
